@@ -10,25 +10,25 @@ Local Open Scope Z_scope.
 
 (* The Section variables of the generated file are instantiated by position below; these lines pin
    their names, so a change of callee cannot go unnoticed. *)
-Arguments mergeQueued T FlushChannel zero_FlushChannel FlushChannel_is_nil _ : assert.
+Arguments mergeQueued FlushChannel T zero_FlushChannel FlushChannel_is_nil _ : assert.
 
 Definition is_nil (c : option N) : bool := negb (isSome c).
-Definition gq (q : qwrite) : queuedObjects N (option N) := mk_queuedObjects N (option N) (q_seq q) (q_objs q) (q_fc q).
-Definition greq (b : batch) : Request N (option N) := mk_Request N (option N) (b_seq b) (b_objs b) (map Some (b_fcs b)).
-Definition gen_merge (qs : list qwrite) : option (Request N (option N)) :=
-  mergeQueued N (option N) None is_nil (map gq qs).
+Definition gq (q : qwrite) : queuedObjects (option N) N := mk_queuedObjects (option N) N (q_seq q) (q_objs q) (q_fc q).
+Definition greq (b : batch) : Request (option N) N := mk_Request (option N) N (b_seq b) (b_objs b) (map Some (b_fcs b)).
+Definition gen_merge (qs : list qwrite) : option (Request (option N) N) :=
+  mergeQueued (option N) N None is_nil (map gq qs).
 
 Lemma gen_mergeQueued_eq : forall qs, gen_merge qs = option_map greq (merge qs).
 Proof.
   intros qs. unfold gen_merge, mergeQueued, merge, zlen. rewrite map_length.
   destruct qs as [|q0 qs0]; [reflexivity|].
   change (Z.of_nat (List.length (q0 :: qs0)) =? 0) with false. cbv iota.
-  change (nth (Z.to_nat 0) (map gq (q0 :: qs0)) (zero_queuedObjects N (option N) None)) with (gq q0).
+  change (nth (Z.to_nat 0) (map gq (q0 :: qs0)) (zero_queuedObjects (option N) N None)) with (gq q0).
   cbn [gq queuedObjects_SequenceNumber option_map greq b_seq b_objs b_fcs].
   lazymatch goal with |- ?lhs = _ => lazymatch lhs with ?F ?a0 ?b0 => pose (LOOP := F) end end.
   enough (H : forall l m objs fcs,
-    LOOP (map gq l) (mk_Request N (option N) m objs fcs)
-    = Some (mk_Request N (option N) (fold_left (fun m q => if m <? q_seq q then q_seq q else m) l m)
+    LOOP (map gq l) (mk_Request (option N) N m objs fcs)
+    = Some (mk_Request (option N) N (fold_left (fun m q => if m <? q_seq q then q_seq q else m) l m)
               (objs ++ flat_map q_objs l) (fcs ++ map Some (flat_map fc_list l))))
     by exact (H (q0 :: qs0) (q_seq q0) [] []).
   clear. induction l as [|q l IH]; intros m objs fcs; unfold LOOP; cbn [map fold_left flat_map]; fold LOOP.
